@@ -136,6 +136,14 @@ func implFn(prog string) string {
 			logged = append(logged, fnTok(call.Argument(0)))
 			return call.Argument(0)
 		})
+		// a host function that re-enters the VM through the Go API
+		vm.Set("hostCall", func(call otto.FunctionCall) otto.Value {
+			r, e := call.Otto.Call(call.Argument(0).String(), nil)
+			if e != nil {
+				panic(call.Otto.MakeCustomError("HostError", e.Error()))
+			}
+			return r
+		})
 		var v otto.Value
 		var err error
 		if route == 0 {
@@ -147,6 +155,10 @@ func implFn(prog string) string {
 				// a Script run on another runtime first must not change what it does here
 				o2 := otto.New()
 				o2.Set("log", func(call otto.FunctionCall) otto.Value { return call.Argument(0) })
+				o2.Set("hostCall", func(call otto.FunctionCall) otto.Value {
+					r, _ := call.Otto.Call(call.Argument(0).String(), nil)
+					return r
+				})
 				o2.Run(s)
 				v, err = vm.Run(s)
 			}
